@@ -45,7 +45,8 @@ XalanMatchPatternDataAllocator::create(
             const XalanDOMString&   theTargetString,
             const XPath&            theMatchPattern,
             const XalanDOMString&   thePatternString,
-            data_type::eMatchScore  thePriority)
+            data_type::eMatchScore  thePriority,
+            data_type::size_type    theAlternative)
 {
     data_type* const    theBlock = m_allocator.allocateBlock();
     assert(theBlock != 0);
@@ -58,7 +59,8 @@ XalanMatchPatternDataAllocator::create(
                 theTargetString,
                 theMatchPattern,
                 thePatternString,
-                thePriority);
+                thePriority,
+                theAlternative);
 
     m_allocator.commitAllocation(theBlock);
 
